@@ -174,7 +174,7 @@ def run_shard(spec, acc):
         if err > TOL:
             ratio = max(test.h_x / trial.h_x, trial.h_x / test.h_x)
             key = 'entry-inexact:%s:%s:%s' % (sr, tr, 'exact' if exact else 'quad')
-            if sr in ('disjoint-other-piece', 'touch-corner') and ratio >= 32:
+            if geo.piece_of(*test.space_interval) != geo.piece_of(*trial.space_interval) and ratio >= 32 * (1 - 1e-9):
                 key = 'entry-inexact:across-corner:size-ratio>=32'   # recorded finding, see known-findings.txt
             acc.violation(key,
                           '%s: <V 1_trial,1_test> = %.17g, reference %.17g, error %.3e of sqrt(D_test D_trial) (test %r, trial %r, pw_exact=%r)'
